@@ -322,7 +322,7 @@ def cog_rules(F, R, tier):
                 rr = r if with_ratio is x[2] else ({'<', '=', '>'} - r)
                 if rr == {'<', '>'}:
                     guard = True
-                zero_branch = without == ('some', lit(0.0))
+                zero_branch = without == ('some', lit(0.0)) or (without == lit(0.0) and ('some', x) in set(subterms(out_t)))
     R.ob('COG-G', 'CenterOfGravity', guard and zero_branch, 'ratio formed exactly when the denominator is non-zero (either sign), 0 reported otherwise' if guard and zero_branch else
          'the ratio is not formed for every non-zero denominator, or the zero-denominator branch does not report 0', v.file)
 
